@@ -32,6 +32,8 @@ unsafe impl bytemuck::Zeroable for Over16 {} unsafe impl bytemuck::Pod for Over1
 #[derive(Clone, Copy)] #[repr(C)] pub struct Pad(pub u8, pub u32);
 unsafe impl bytemuck::Zeroable for Pad {}
 #[derive(Clone, Copy)] pub struct NotAnything(pub u8);
+pub struct Tok<T>(core::marker::PhantomData<T>);   // a zero-sized token type that is NOT Zeroable
+impl<T> Clone for Tok<T> { fn clone(&self) -> Self { *self } } impl<T> Copy for Tok<T> {}
 #[derive(Clone, Copy)] #[repr(C, align(16))] pub struct Zst16;
 unsafe impl bytemuck::Zeroable for Zst16 {} unsafe impl bytemuck::Pod for Zst16 {}
 '''
@@ -65,6 +67,8 @@ def struct_family(tier, seed):
         dict(kind=0, name=6, repr=1, fields=[2, 2], gen=0), dict(kind=0, name=7, repr=2, fields=[2, 8], gen=0),
         dict(kind=0, name=0, repr=1, fields=[20, 0], gen=0), dict(kind=0, name=1, repr=1, fields=[20, 0], gen=0),
         dict(kind=0, name=1, repr=6, fields=[0, 2], gen=0), dict(kind=0, name=0, repr=1, fields=[14, 2], gen=0),
+        dict(kind=0, name=0, repr=2, fields=[2], gen=4), dict(kind=1, name=0, repr=2, fields=[3], gen=5),
+        dict(kind=1, name=0, repr=2, fields=[2, 9], gen=4), dict(kind=0, name=0, repr=2, fields=[], gen=4),
     ]
     for c in corpus:
         defs.append(c)
@@ -74,7 +78,7 @@ def struct_family(tier, seed):
         fields = [rnd.randrange(len(LEAVES)) if rnd.random() < 0.45 else rnd.choice([0, 1, 2, 3, 5, 6, 7, 8, 9, 19]) for _ in range(nf)]
         name = rnd.randrange(len(NAMES)) if rnd.random() < 0.2 else 0
         repr_ = rnd.randrange(len(REPRS))
-        gen = rnd.choice([0, 0, 0, 0, 0, 1, 2, 3])
+        gen = rnd.choice([0, 0, 0, 0, 0, 0, 1, 2, 3, 4, 5])
         defs.append(dict(kind=kind, name=name, repr=repr_, fields=fields, gen=gen))
     return defs
 
@@ -95,7 +99,7 @@ def render_struct(d, idx, derive, tw_attr=None):
         lines.append("#[repr(%s)]" % ", ".join(a))
     if derive == "TransparentWrapper" and tw_attr is not None:
         lines.append("#[transparent(%s)]" % tw_attr)
-    gen = {0: "", 1: "<G>", 2: "<const N: usize>", 3: "<'a>"}[d["gen"]]
+    gen = {0: "", 1: "<G>", 2: "<const N: usize>", 3: "<'a>", 4: "<G>", 5: "<G>"}[d["gen"]]
     ftys = [LEAVES[f][0] for f in d["fields"]]
     if d["gen"] == 1:
         ftys = ftys + ["G"]
@@ -103,6 +107,10 @@ def render_struct(d, idx, derive, tw_attr=None):
         ftys = ftys + ["[u8; N]"]
     elif d["gen"] == 3:
         ftys = ftys + ["core::marker::PhantomData<&'a u8>"]
+    elif d["gen"] == 4:
+        ftys = ftys + ["super::Tok<G>"]
+    elif d["gen"] == 5:
+        ftys = ftys + ["core::marker::PhantomData<G>"]
     kw = "union" if d["kind"] == 3 else "struct"
     if d["kind"] == 2 and not ftys:
         body = ";"
@@ -157,12 +165,12 @@ def compile_verdicts(name, prelude, modules, max_rounds=8):
             lines.append("}")
             ranges.append((start, len(lines), m))
         lines.append("pub fn all_facts() -> Vec<(&'static str, String)> { vec![")
-        lines += ['  ("%s", %s::facts()),' % (m, m) for m in active]
+        lines += ['  ("%s", std::panic::catch_unwind(|| %s::facts()).unwrap_or_else(|_| String::from("PANICKED"))),' % (m, m) for m in active]
         lines.append("] }")
         with open(os.path.join(d, "src", "lib.rs"), "w") as f:
             f.write("\n".join(lines) + "\n")
         with open(os.path.join(d, "src", "main.rs"), "w") as f:
-            f.write('fn main() { for (m, s) in derivefam::all_facts() { println!("{} {}", m, s); } }\n')
+            f.write('fn main() { std::panic::set_hook(Box::new(|_| {})); for (m, s) in derivefam::all_facts() { println!("{} {}", m, s); } }\n')
         rc, out = sh(["cargo", "check", "--offline", "--lib", "--message-format=json"], cwd=d,
                      env={"CARGO_TARGET_DIR": target}, timeout=1800)
         failing = {}
@@ -232,14 +240,17 @@ def struct_modules(defs):
     mods = []
     for i, d in enumerate(defs):
         txt, name, ftys = render_struct(d, i, None)
-        inst = {0: name, 1: name + "<u32>", 2: name + "<3>", 3: name + "<'static>"}[d["gen"]]
+        inst = {0: name, 1: name + "<u32>", 2: name + "<3>", 3: name + "<'static>", 4: name + "<u32>", 5: name + "<u32>"}[d["gen"]]
         offs = []
         if d["kind"] in (0, 1):
             for k in range(len(ftys)):
                 fname = ("f%d" % k) if d["kind"] == 0 else str(k)
                 offs.append("core::mem::offset_of!(%s, %s)" % (inst, fname))
-        fsz = ["core::mem::size_of::<%s>()" % t.replace("G", "u32").replace("[u8; N]", "[u8; 3]").replace("'a", "'static") if t in ("G", "[u8; N]") or "'a" in t
-               else "core::mem::size_of::<%s>()" % t for t in ftys]
+        def conc(t):
+            if t == "G":
+                return "u32"
+            return t.replace("<G>", "<u32>").replace("[u8; N]", "[u8; 3]").replace("'a", "'static")
+        fsz = ["core::mem::size_of::<%s>()" % conc(t) for t in ftys]
         body = txt + "\npub fn facts() -> String { let o: Vec<usize> = vec![%s]; let s: Vec<usize> = vec![%s]; format!(\"{} {} {:?} {:?}\", core::mem::size_of::<%s>(), core::mem::align_of::<%s>(), o, s) }" % (
             ", ".join(offs), ", ".join(fsz), inst, inst)
         mods.append(("s%d_plain" % i, body))
@@ -323,6 +334,10 @@ def field_descr(d, wrapped_ty=None):
         out.append(["[u8; N]", 3, 1, 15])
     elif d["gen"] == 3:
         out.append(["core::marker::PhantomData<&'a u8>", 0, 1, 15 + 32])
+    elif d["gen"] == 4:
+        out.append(["super::Tok<G>", 0, 1, 0])
+    elif d["gen"] == 5:
+        out.append(["core::marker::PhantomData<G>", 0, 1, 15])
     return out
 
 
